@@ -408,9 +408,11 @@ def l3_texts(variant):
                           lambda h: h.strip().startswith("use ") and "iced_x86::{Decoder" not in h and "wasm_bindgen" not in h)
     ex, n1, n2 = erase_async(ex)
     out["state/execute.rs"] = ("src/state/execute.rs", "use iced_x86::{Instruction, Register};\n" + ex if False else ex + "\nuse iced_x86::Register;\n")
-    hk = X.whole_file("src/state/hooks.rs")
-    hk, n3, n4 = erase_async(hk)
-    out["state/hooks.rs"] = ("src/state/hooks.rs", redirect_hashmap(hk))
+    n3 = n4 = 0
+    if variant != "step":
+        hk = X.whole_file("src/state/hooks.rs")
+        hk, n3, n4 = erase_async(hk)
+        out["state/hooks.rs"] = ("src/state/hooks.rs", redirect_hashmap(hk))
     gen = X.whole_file("src/auto/generated.rs")
     out["auto/generated.rs"] = ("src/auto/generated.rs", X.select_items(gen, lambda h: not re.match(r"\s*impl Axecutor\b", h.strip())))
     mac = X.whole_file("src/helpers/macros.rs")
@@ -438,16 +440,25 @@ def l3_texts(variant):
 
 
 L3_HARNESSES = [
-    # (name, call, unwind, crate variant); `which`: 0 = NOP (the hooked mnemonic), 1 = SYSCALL, 2 = ADD, 3 = AAA (unsupported)
-    ("l3_step_b0_a0_nop", "l3::check_step(0, 0, 0)", 9, "step"),
-    ("l3_step_b1_a1_nop", "l3::check_step(1, 1, 0)", 9, "step"),
-    ("l3_step_b2_a1_nop", "l3::check_step(2, 1, 0)", 9, "step"),
-    ("l3_step_b1_a2_nop", "l3::check_step(1, 2, 0)", 9, "step"),
-    ("l3_step_b3_a3_nop", "l3::check_step(3, 3, 0)", 9, "step"),
-    ("l3_step_b1_a1_add", "l3::check_step(1, 1, 2)", 9, "step"),
-    ("l3_step_b1_a1_unsupported", "l3::check_step(1, 1, 3)", 9, "step"),
-    ("l3_after_step_nop", "l3::check_after_step(0)", 9, "step"),
-    ("l3_execute", "l3::check_execute()", 9, "step"),
+    # (name, call, unwind, crate variant)
+    ("l3_step_nop", "l3::check_step(0)", 6, "step"),
+    ("l3_step_syscall", "l3::check_step(1)", 6, "step"),
+    ("l3_step_add", "l3::check_step(2)", 6, "step"),
+    ("l3_step_ret", "l3::check_step(3)", 6, "step"),
+    ("l3_step_unsupported", "l3::check_step(4)", 6, "step"),
+    ("l3_execute", "l3::check_execute()", 6, "step"),
+    ("l3_trace_add", "l3trace::check_add_trace()", 6, "trace"),
+    ("l3_trace_render", "l3trace::check_render()", 6, "trace"),
+    ("l3_sys_brk", "l3sys::check_brk()", 6, "sys"),
+    ("l3_sys_pipe", "l3sys::check_pipe()", 10, "sys"),
+    ("l3_sys_pipe_foreign_fd", "l3sys::check_pipe_foreign_fd()", 18, "sys"),
+    ("l3_hooks_before_k0", "l3hooks::check_phase(0, true)", 6, "hooks"),
+    ("l3_hooks_before_k1", "l3hooks::check_phase(1, true)", 6, "hooks"),
+    ("l3_hooks_before_k2", "l3hooks::check_phase(2, true)", 6, "hooks"),
+    ("l3_hooks_before_k3", "l3hooks::check_phase(3, true)", 6, "hooks"),
+    ("l3_hooks_after_k1", "l3hooks::check_phase(1, false)", 6, "hooks"),
+    ("l3_hooks_after_k2", "l3hooks::check_phase(2, false)", 6, "hooks"),
+    ("l3_hooks_after_k3", "l3hooks::check_phase(3, false)", 6, "hooks"),
 ]
 
 
@@ -462,7 +473,7 @@ def plan_l3():
 def l3_hash(variant="step"):
     t, _ = l3_texts(variant)
     parts = [x for (_r, x) in t.values()]
-    for rel in ["model/errors.rs", "model/debug.rs", "model/verif_hooks.rs", "model/regfile.rs", "model/l3/axecutor.rs", "model/l3/fmap.rs", "model/l3/rand.rs", "harness/l3.rs", "harness/l3trace.rs", "harness/l3sys.rs"]:
+    for rel in ["model/errors.rs", "model/debug.rs", "model/verif_hooks.rs", "model/regfile.rs", "model/l3/axecutor.rs", "model/l3/fmap.rs", "model/l3/rand.rs", "model/l3/hooks_model.rs", "harness/l3.rs", "harness/l3common.rs", "harness/l3hooks.rs", "harness/l3trace.rs", "harness/l3sys.rs"]:
         parts.append(open(os.path.join(KANI, rel)).read())
     parts.append(CRATE_LAYOUT_VERSION)
     return X.sha(*parts)
@@ -481,8 +492,10 @@ def build_l3(dst, harnesses, variant="step"):
     for a, b in [("model/errors.rs", "helpers/errors.rs"), ("model/debug.rs", "helpers/debug.rs"), ("model/verif_hooks.rs", "verif_hooks.rs"),
                  ("model/regfile.rs", "model/regfile.rs"), ("model/l3/axecutor.rs", "axecutor.rs"), ("model/l3/fmap.rs", "model/fmap.rs"),
                  ("model/l3/rand.rs", "model/rand.rs"), ("harness/l3.rs", "harness/l3.rs"), ("harness/l3trace.rs", "harness/l3trace.rs"),
-                 ("harness/l3sys.rs", "harness/l3sys.rs")]:
+                 ("harness/l3sys.rs", "harness/l3sys.rs"), ("harness/l3common.rs", "harness/l3common.rs"), ("harness/l3hooks.rs", "harness/l3hooks.rs")]:
         copy(os.path.join(KANI, a), os.path.join(src, b))
+    if variant == "step":
+        copy(os.path.join(KANI, "model/l3/hooks_model.rs"), os.path.join(src, "state/hooks.rs"))
     write(os.path.join(src, "harness/gen_l3.rs"), "".join(h["decl"] for h in harnesses))
     lib = ["#![allow(warnings)]\n", FORMAT_SHADOW,
            "pub mod verif_hooks;\npub mod model { pub mod regfile; pub mod fmap; pub mod rand; }\n",
@@ -490,7 +503,7 @@ def build_l3(dst, harnesses, variant="step"):
            "pub mod state { pub mod registers; pub mod hooks; pub mod execute; }\n",
            "pub mod auto { pub mod generated; }\n",
            "pub mod axecutor;\n",
-           "pub mod harness { #[cfg(ax_l3_step)] pub mod l3; #[cfg(ax_l3_trace)] pub mod l3trace; #[cfg(ax_l3_sys)] pub mod l3sys; #[cfg(kani)] pub mod gen_l3; }\n"]
+           "pub mod harness { pub mod l3common; #[cfg(ax_l3_step)] pub mod l3; #[cfg(ax_l3_hooks)] pub mod l3hooks; #[cfg(ax_l3_trace)] pub mod l3trace; #[cfg(ax_l3_sys)] pub mod l3sys; #[cfg(kani)] pub mod gen_l3; }\n"]
     write(os.path.join(src, "lib.rs"), "".join(lib))
     write(os.path.join(dst, "Cargo.toml"), CARGO_TOML.format(name="axl3"))
     write(os.path.join(dst, ".cargo/config.toml"), "[net]\noffline = true\n")
